@@ -1,0 +1,20 @@
+//go:build verif
+
+// Contracts for the deductive verifier in /verif (govc). Comment-only.
+
+package queries
+
+// ---- field.go: what a validated filter value is (C38) ---------------------------------------------------------
+// ResourceRepository.validateFilters refuses a filter unless the field type of the property accepts (operator, value);
+// the storage handlers (ResolveFilter) rely on exactly these facts for their unchecked type assertions.
+
+//@ func (t TypeString) ValidateValue(operator string, value any) (err error)
+//@   property C38
+//@   ensures err == nil && operator != "$in" ==> is(value, string)
+//@   ensures err == nil && operator == "$in" ==> is(value, []any)
+//@   loop 1:
+//@     invariant true
+
+//@ func (t TypeBoolean) ValidateValue(operator string, value any) (err error)
+//@   property C38
+//@   ensures err == nil ==> is(value, bool)
